@@ -152,14 +152,33 @@ class StageResult:
         self.restarts = 0
 
 
-def run_worker(cmd, env, timeout, outdir, shard):
-    """returns (retcode or 'timeout', stdout, stderr)"""
+def _cpu_seconds(pid):
+    try:
+        f = open("/proc/%d/stat" % pid).read().rsplit(")", 1)[1].split()
+        return (int(f[11]) + int(f[12])) / float(os.sysconf("SC_CLK_TCK"))
+    except Exception:
+        return 0.0
+
+
+def run_worker(cmd, env, timeout, outdir, shard, cpu_limit=None):
+    """returns (retcode or 'timeout', stdout, stderr).  With cpu_limit the deadline is on the CPU seconds the worker has consumed
+    (a verdict that does not depend on how loaded the machine is); `timeout` stays as the wall-clock bound for a blocked worker."""
     so = open(os.path.join(outdir, "stdout_%d" % shard), "ab+")
     se = open(os.path.join(outdir, "stderr_%d" % shard), "ab+")
     so_pos, se_pos = so.seek(0, 2), se.seek(0, 2)
     p = subprocess.Popen(cmd, stdout=so, stderr=se, env=env, cwd=outdir, start_new_session=True)
     try:
-        rc = p.wait(timeout=timeout)
+        if cpu_limit is None:
+            rc = p.wait(timeout=timeout)
+        else:
+            t_end = time.time() + timeout
+            while True:
+                try:
+                    rc = p.wait(timeout=1.0)
+                    break
+                except subprocess.TimeoutExpired:
+                    if _cpu_seconds(p.pid) >= cpu_limit or time.time() >= t_end:
+                        raise
     except subprocess.TimeoutExpired:
         try:
             os.killpg(p.pid, signal.SIGKILL)
@@ -246,9 +265,9 @@ def run_stage(pid, stage, tier, seed, workdir, replay_case=None):
             if rc == "timeout":
                 if hang_mode == "violation" and j is not None and j >= 0:
                     # re-run the journaled case alone under the per-case watchdog
-                    rc2, out2, err2 = run_worker(base_cmd(0, 1, j, j + 1), env, case_timeout, outdir, shard)
+                    rc2, out2, err2 = run_worker(base_cmd(0, 1, j, j + 1), env, 10 * case_timeout, outdir, shard, cpu_limit=case_timeout)
                     if rc2 == "timeout":
-                        local["violations"].append(_crash_violation(pid, stage, seed, tier, j, "hang", "case did not finish within %ds (twice)" % case_timeout, _note(outdir, shard), outdir, shard, extra))
+                        local["violations"].append(_crash_violation(pid, stage, seed, tier, j, "hang", "case alone did not finish within %d CPU seconds (or %d s wall clock)" % (case_timeout, 10 * case_timeout), _note(outdir, shard), outdir, shard, extra))
                         start = j + 1
                         local["restarts"] += 1
                         deadline = time.time() + timeout
